@@ -166,6 +166,37 @@ def tab_spellings(segs):
     yield from gen(0, 0)
 
 
+def second_line_segs(first):
+    """container re-entry on a following line for a first line given as chain segments: every choice of quote
+    marker indentation (0-1 extra columns) and following blank run (1, 2 or 4 columns); list segments become the
+    blanks that reach their content offset"""
+    marks = [(first[i][1], first[i + 1][1]) for i in range(1, len(first) - 1, 2)]
+
+    def rec(i, segs, pending):
+        if i == len(marks):
+            yield segs, pending
+            return
+        mk, run = marks[i]
+        if mk == ">":
+            for ind in (0, 1):
+                for r in (1, 2, 4):
+                    s2 = list(segs)
+                    if pending + ind:
+                        s2.append(("b", pending + ind))
+                    s2.append(("l", ">"))
+                    yield from rec(i + 1, s2, r)
+        else:
+            w = len(mk) + (run if run <= 4 else 1)
+            yield from rec(i + 1, segs, pending + w)
+
+    for segs, pending in rec(0, [], first[0][1]):
+        for extra in (0, 1, 3):
+            yield segs + ([("b", pending + extra)] if pending + extra else [])
+
+
+LEAVES_2 = ["x", "- x", "> x", "# x"]
+
+
 # ---- driver --------------------------------------------------------------------------------------------------
 TAB_PREF = ["", "\t", " \t", "  \t", "   \t", "\t\t", "    ", "  ", "\t ", "\t  "]
 TAB_LEAF = ["", "a", "# a", "---", "- a", "> a", ">", "```", "[a]: /u", "-", "1. a", "<div>", "-\ta", ">\ta"]
@@ -210,6 +241,10 @@ def shards(tier):
         for ind0 in range(0, 4):
             for mk in MARKS:
                 sh.append(("tabs-chain", d, ind0, mk))
+    for d in (1, 2):
+        for ind0 in ((0, 1, 3) if th else (0, 1)):
+            for mk in MARKS:
+                sh.append(("tabs-chain2", d, ind0, mk, th))
     return sh
 
 
@@ -280,6 +315,8 @@ def run_shard(sh, acc):
                 acc.violation("tabs-lead", "leading tabs differ from their space expansion",
                               {"cfg": c, "variant": d, "twin": d2}, "tokens differ between the tab and the space spelling")
         acc.sample("tabs-lead", {"variant": f + "\n \t- a\n", "twin": expand_leading(f) + "\n    - a\n"}, 1)
+    elif kind == "tabs-chain2":
+        _run_chain2(sh, acc)
     elif kind == "tabs-chain":
         _, depth, ind0, mk0 = sh
         c = MAIN[0]
@@ -307,6 +344,40 @@ def run_shard(sh, acc):
                                       "tokens differ between the tab and the space spelling")
                 acc.sig(("chain", sp))
         acc.sample("tabs-chain", {"variant": ">\t- x\n", "twin": ">   - x\n"}, 1)
+
+
+def _run_chain2(sh, acc):
+    _, depth, ind0, mk0, th = sh
+    c = MAIN[0]
+    md = C.build(c)
+    for first in chains(depth, [ind0]):
+        if first[1][1] != mk0:
+            continue
+        if not th and (first[-1][1] not in (1, 2, 4) or any(first[i][1] not in (1, 3) for i in range(2, len(first) - 1, 2))):
+            continue  # quick: fewer blank-run widths on the first line
+        l1 = "".join(" " * w if k == "b" else w for k, w in first) + "x"
+        for segs2 in second_line_segs(first):
+            for leaf in LEAVES_2:
+                sp2 = "".join(" " * w if k == "b" else w for k, w in segs2) + leaf
+                twin = l1 + "\n" + sp2 + "\n"
+                ref = acc.call(md.parse, twin)
+                if ref is CRASH:
+                    continue
+                rs = sig_tabs(ref)
+                for t in tab_spellings(segs2):
+                    l2 = t + leaf
+                    if "\t" not in l2:
+                        continue
+                    acc.case()
+                    v = l1 + "\n" + l2 + "\n"
+                    got = acc.call(md.parse, v)
+                    if got is CRASH:
+                        continue
+                    if sig_tabs(got) != rs:
+                        acc.violation("tabs-chain2", f"depth {depth}: tab spelling on a continuation line differs from the space spelling",
+                                      {"cfg": c, "variant": v, "twin": twin}, "tokens differ between the tab and the space spelling")
+                acc.sig(("chain2", twin))
+    acc.sample("tabs-chain2", {"variant": "> > a\n> >\tb\n", "twin": "> > a\n> > b\n"}, 1)
 
 
 def check_case(case, acc):
